@@ -1054,7 +1054,14 @@ fn exec_case_inner(case: &Case) -> CaseResult {
     let mut log = Digest::new();
     // the reference executions must not themselves cross the counter wrap
     FileId::__verif_set_next(1 << 40);
-    if out.problems.is_empty() {
+    // After a counter wrap ids may collide (permitted by the property), and then, as the comment
+    // in `FileId::new` says, "a file ID collision merely causes diagnostics to print the wrong
+    // file name and source context": outputs of such a run cannot be compared with anything.
+    let collision_after_wrap = wrapped && {
+        let mut seen = BTreeSet::new();
+        ids.iter().any(|id| !seen.insert(*id))
+    };
+    if out.problems.is_empty() && !collision_after_wrap {
         for (tid, tasks) in case.threads.iter().enumerate() {
             for (k, task) in tasks.iter().enumerate() {
                 let Some(r) = results.get(&(tid, k)) else {
@@ -1071,7 +1078,10 @@ fn exec_case_inner(case: &Case) -> CaseResult {
                     }
                     continue;
                 }
-                if wrapped && matches!(task, Task::Multi(..) | Task::ExecBuilder(..)) {
+                if wrapped && (task.needs_shared() || matches!(task, Task::Multi(..) | Task::ExecBuilder(..))) {
+                    // a document validated against the shared schema carries the schema's files in
+                    // its source map: after a wrap its own id may be one of theirs (the map then
+                    // holds one entry for two files), which the id list cannot show
                     // diagnostics of a multi-source build are ordered by (file id, offset): after
                     // a counter wrap the second source may get the smaller id, by design
                     continue;
@@ -1128,6 +1138,9 @@ fn exec_case_inner(case: &Case) -> CaseResult {
     }
     counters.push((format!("cfg.{}", if case.cold { "cold" } else { "warm" }), 1));
     counters.push((format!("strategy.{}", strategy_to_s(&case.strategy).split(':').next().unwrap()), 1));
+    if collision_after_wrap {
+        counters.push(("probe.id_collision_after_wrap_outputs_not_compared".into(), 1));
+    }
     if wrapped {
         counters.push(("probe.wrap_path_taken".into(), 1));
     }
